@@ -188,6 +188,11 @@ func c20(raw json.RawMessage, resp *drv.Response) error {
 	}
 	inst := data.ByName(req.Instance)
 	rng := drv.Rng(int64(2000 + req.Shard))
+	// the process has verified the unaltered proof before it meets the altered ones (what a long-running prover service has done):
+	// nothing remembered from that run may stand in for the shape checks of a later proof
+	if out, msg := runShape(data.Load(inst, req.K), req.Wrapper); out != "accept" && !(req.Wrapper == "fixed" && out == "refuse") {
+		return fmt.Errorf("honest run rejected: %s", msg)
+	}
 	for _, c := range req.Lists {
 		l := data.Load(inst, req.K)
 		pattern := c.List
